@@ -64,6 +64,16 @@
                        changes the abstract map by exactly that update.  This is the
                        per-call content of linearizability for writers (and of C05's
                        "atomic per key").
+     C04_load_hit      (proofs/X_loadhit.v) readers: while a thread stays inside one
+                       lookup of key k in table tab, if its next step returns the value
+                       v then the pair (k, v) was VISIBLE in that table (meta byte and
+                       entry pointer both stored: a completely written pair under k) in
+                       some state of the run since the lookup loaded its first meta
+                       word -- also when the reader finds the entry of a slot whose
+                       meta byte a delete has cleared meanwhile: the pair was visible
+                       just before that store.  So a lookup never returns a value
+                       stored under another key, a mix of two writes, or a pair that
+                       was deleted before the lookup began.
    NOT a closed theorem: the final composition into "every history is
    linearizable": readers linearize at a moment inside their interval (C16 gives
    what they do, C04_vis_step what they can see), and a writer that passed its
@@ -74,7 +84,7 @@
    with colliding hashers and tables at the grow / shrink thresholds and checks
    every history for linearizability (porcupine). *)
 From CacheV Require Import Base SpecMap TableModel XMachine TabExec Exec XExec.
-From CacheV.proofs Require Import C11_lists C11_table C11_idx X_basic X_inv X_c13 X_inst X_own X_chain X_c04 X_lin X_resize X_swar X_atomic.
+From CacheV.proofs Require Import C11_lists C11_table C11_idx X_basic X_inv X_c13 X_inst X_own X_chain X_c04 X_lin X_resize X_swar X_atomic X_range X_loadhit.
 From Coq Require Import NArith.
 Local Open Scope nat_scope.
 
@@ -178,6 +188,21 @@ Theorem C04_writer_atomic :
 Proof. exact @writer_atomic_proof. Qed.
 Print Assumptions C04_writer_atomic.
 
+Theorem C04_load_hit :
+  forall (K V : Type) (eqd : forall a b : K, {a = b} + {a <> b}) hash idx tag nslots seeds g sh probe nstripes minlen grow_only,
+    xhyps4 idx nstripes minlen nslots probe -> forall len0 todo sched0 sched t k lc tab v s2 ls2, (0 < len0)%nat ->
+    let xr := @xrun K V eqd hash idx tag nslots seeds g sh probe nstripes minlen grow_only in
+    let s := fst (xr (xinit nslots seeds nstripes len0 todo) sched0) in
+    (* in every state of the run t is inside the lookup of k in table tab (which is published) *)
+    along eqd hash idx tag nslots seeds g sh probe nstripes minlen grow_only (inlookup hash nslots nstripes t k lc tab) s sched ->
+    (match g_pc s t with PL_Ent _ _ _ _ _ _ => False | _ => True end) ->
+    @xstep K V eqd hash idx tag nslots seeds g sh probe nstripes minlen grow_only (fst (xr s sched)) t = Some (s2, ls2) ->
+    (exists l, In l ls2 /\ hit t v l) ->
+    ever eqd hash idx tag nslots seeds g sh probe nstripes minlen grow_only
+         (fun s' => vis hash idx (tab_at nslots nstripes s' tab) k v) s sched.
+Proof. exact @load_hit_proof. Qed.
+Print Assumptions C04_load_hit.
+
 Theorem C04_instance :
   forall hint, xhyps4 idx_mapof nstripes_x (minlen_of_hint true hint) (Z.to_nat Params.entriesPerMapOfBucket) probe_x.
 Proof. exact x_instance_hyps4. Qed.
@@ -205,3 +230,22 @@ Example C04_nonvacuous :
   lin_effect (g_pc ex_run04 0) 0 = Some (7, Some 1) /\ g_cur ex_run04 = 0 /\ (exists k lc h bi, g_pc ex_run04 1 = PL_Meta k lc 0 h bi).
 Proof. split; [vm_compute; reflexivity | split; [vm_compute; reflexivity | do 4 eexists; vm_compute; reflexivity]]. Qed.
 Print Assumptions C04_nonvacuous.
+
+(* non-vacuity for C04_load_hit: key 7 is stored; thread 1 looks it up and has loaded the meta word
+   (it stands at PL_Ent with slot 0 in its list); thread 0 then clears the meta byte (first store of its
+   delete); the reader's next step still returns 1 -- the pair was visible when the meta word was loaded *)
+Definition ex_xr04h (s : @xstate nat nat) sched :=
+  @xrun nat nat Nat.eq_dec (fun _ _ => 5%N) (fun h len => N.to_nat h mod len) (fun h => h) 2 (fun _ => 0%N)
+        (fun _ _ => false) (fun _ _ => false) (fun tags tg => filter (fun i => match nth i tags None with Some t => N.eqb t tg | None => false end) (seq 0 (length tags)))
+        (fun _ => 1) 1 false s sched.
+Definition ex_s04h : @xstate nat nat :=
+  fst (ex_xr04h (xinit 2 (fun _ => 0%N) (fun _ => 1) 1
+                       (fun t => if Nat.eqb t 0 then [XCompute 7 (fun _ => Some 1) false false false; XCompute 7 (fun _ => None) false false false]
+                                 else if Nat.eqb t 1 then [XLoad 7] else []))
+                (repeat 0 12 ++ [1; 1])).
+Example C04_load_hit_nonvacuous :
+  (exists h, g_pc ex_s04h 1 = PL_Meta 7 LPlain 0 h 0)
+  /\ (exists cx pos old, g_pc (fst (ex_xr04h ex_s04h [1; 0; 0])) 0 = PW_D2 cx 0 pos old)
+  /\ (exists h, g_pc (fst (ex_xr04h ex_s04h [1; 0; 0])) 1 = PL_Ent 7 LPlain 0 h 0 [0]).
+Proof. split; [eexists; vm_compute; reflexivity|]. split; [do 3 eexists; vm_compute; reflexivity | eexists; vm_compute; reflexivity]. Qed.
+Print Assumptions C04_load_hit_nonvacuous.
